@@ -17,7 +17,11 @@ RULE = (
     "connect mode (race|fallback) + 1..4 peer connections, each incoming (scripted peer connects to the clear or "
     "obfuscated listening port), outgoing (create_peer_connection / get_peer_connection, address looked up or given, "
     "direct listener accept|refuse|hang|reset|accept-then-write-fails|accept-then-write-blocks x indirect "
-    "pierce|cannot|silent) or outgoing on request (ConnectToPeer from the server -> PeerPierceFirewall), type P or D, "
+    "pierce|cannot|silent; the user advertises one port or both clear+obfuscated ports with an independent listener "
+    "outcome per port and settings.network.peer.obfuscate drawn; optionally an advertised port that does not fit in "
+    "16 bits (clear port in GetPeerAddress, either port in ConnectToPeer: legal uint32 wire values) for which the "
+    "socket layer raises OverflowError) or outgoing on request "
+    "(ConnectToPeer from the server -> PeerPierceFirewall, same port options), type P or D, "
     "with one ending: local disconnect (1 or 2 concurrent calls with different reasons, second call 0..3 loop "
     "iterations later, optionally in the very iteration a data segment / EOF / reset of the peer arrives, before or "
     "after it), remote EOF / reset / partial frame+EOF / silence (read timeout) before or after the init message, "
@@ -78,6 +82,11 @@ REASONS = ['REQUESTED', 'UNKNOWN', 'EOF', 'READ_ERROR', 'TIMEOUT', 'WRITE_ERROR'
 SYNCS = ['idle', 'before-arrival', 'after-arrival']
 ARRIVALS = ['data', 'eof', 'reset']
 FAULTS = ['cancel', 'disconnect', 'netdc']
+# which of the user's ports the server advertises: only the one selected by 'obf' (primary) or both
+ADVS = ['one', 'both']
+# which advertised port carries a value that does not fit in 16 bits (the wire field is a uint32)
+OOBS = ['none', 'primary', 'alt', 'both']
+OOB_PORTS = [70000, 65536, 4294967295]
 E_OFFSET = 1.00237
 A_SETTLE = 15.0037
 B_SETTLE = 200.0
@@ -111,6 +120,10 @@ def conn_strategy(draw, i):
         spec['init_at'] = draw(st.integers(0, 2))
     else:
         spec['direct'] = draw(st.sampled_from(['accept', 'accept'] + DIRECT))
+        spec['direct_alt'] = draw(st.sampled_from(['accept', 'accept'] + DIRECT))
+        spec['adv'] = draw(st.sampled_from(ADVS))
+        spec['oob'] = draw(st.sampled_from(['none'] * 5 + OOBS))
+        spec['oob_port'] = draw(st.integers(0, len(OOB_PORTS) - 1))
         spec['indirect'] = draw(st.sampled_from(INDIRECT))
         spec['direct_delay'] = draw(st.sampled_from([1, 2, 3, 5, 8]))
         spec['indirect_delay'] = draw(st.sampled_from([1, 2, 3, 5, 8]))
@@ -130,6 +143,7 @@ def case_strategy(draw):
         server = {'kind': draw(st.sampled_from(['eof', 'reset'])), 'at': draw(st.integers(0, 8))}
     return {
         'mode': draw(st.sampled_from(['race', 'fallback'])),
+        'prefer_obf': draw(st.booleans()),
         'conns': conns,
         'fault': fault,
         'server': server,
@@ -167,6 +181,32 @@ def base_shapes(tier):
         for typ, obf in variants:
             shapes.append({'mode': 'race', 'conns': [_base_conn(dir='in', typ=typ, obf=obf, init=init, init_at=1)],
                            'server': None, 'listener_yield': 0, 'teardown_at_a': False})
+    # both ports advertised, obfuscation preferred, a different outcome per port
+    for mode in ('race', 'fallback'):
+        for direct, alt, indirect in (('refuse', 'accept', 'cannot'), ('hang', 'accept', 'pierce'),
+                                      ('refuse', 'accept', 'pierce'), ('accept', 'refuse', 'cannot'),
+                                      ('accept-failwrite', 'accept', 'cannot')):
+            shapes.append({'mode': mode, 'prefer_obf': True, 'conns': [_base_conn(
+                dir='out', typ='P', obf=True, api='create', adv='both', direct=direct, direct_alt=alt,
+                indirect=indirect, direct_delay=2, indirect_delay=3)],
+                'server': None, 'listener_yield': 0, 'teardown_at_a': False})
+    shapes.append({'mode': 'race', 'prefer_obf': True, 'conns': [_base_conn(
+        dir='ctp', typ='P', obf=True, api='create', adv='both', direct='refuse', direct_alt='accept',
+        indirect='silent', direct_delay=2, indirect_delay=3)],
+        'server': None, 'listener_yield': 0, 'teardown_at_a': False})
+    # an advertised port that does not fit in 16 bits (legal uint32 on the wire)
+    for mode in ('race', 'fallback'):
+        for obf, adv, oob, indirect in ((False, 'one', 'primary', 'pierce'), (False, 'one', 'primary', 'cannot'),
+                                        (False, 'both', 'primary', 'silent')):
+            shapes.append({'mode': mode, 'prefer_obf': False, 'conns': [_base_conn(
+                dir='out', typ='P', obf=obf, api='create', adv=adv, oob=oob, oob_port=0, direct='accept',
+                direct_alt='accept', indirect=indirect, direct_delay=2, indirect_delay=3)],
+                'server': None, 'listener_yield': 0, 'teardown_at_a': False})
+    for obf, oob_port in ((False, 0), (True, 2)):
+        shapes.append({'mode': 'race', 'prefer_obf': obf, 'conns': [_base_conn(
+            dir='ctp', typ='P', obf=obf, api='create', adv='one', oob='primary', oob_port=oob_port, direct='accept',
+            direct_alt='accept', indirect='silent', direct_delay=2, indirect_delay=3)],
+            'server': None, 'listener_yield': 0, 'teardown_at_a': False})
     # a slow state listener turns every state report into a suspension point of the attempt
     for mode in ('race', 'fallback'):
         for direct, indirect in (('accept', 'pierce'), ('refuse', 'pierce'), ('accept-failwrite', 'cannot'),
@@ -246,6 +286,10 @@ def _sanitise(case):
             spec['init_at'] = _int(s.get('init_at'), 0, 3)
         else:
             spec['direct'] = _pick(s.get('direct'), DIRECT)
+            spec['direct_alt'] = _pick(s.get('direct_alt'), DIRECT)
+            spec['adv'] = _pick(s.get('adv'), ADVS)
+            spec['oob'] = _pick(s.get('oob'), OOBS)
+            spec['oob_port'] = _int(s.get('oob_port'), 0, len(OOB_PORTS) - 1)
             spec['indirect'] = _pick(s.get('indirect'), INDIRECT)
             spec['direct_delay'] = _int(s.get('direct_delay', 2), 1, 20, 2)
             spec['indirect_delay'] = _int(s.get('indirect_delay', 3), 1, 20, 3)
@@ -268,6 +312,7 @@ def _sanitise(case):
         server = None
     return {
         'mode': _pick(case.get('mode'), ['race', 'fallback']),
+        'prefer_obf': bool(case.get('prefer_obf')),
         'conns': conns,
         'fault': fault,
         'server': server,
@@ -377,6 +422,7 @@ def _execute(case):
         net = world.net
         settings = simworld.mk_settings('me')
         settings.network.peer.connect_mode = PeerConnectMode.RACE if c['mode'] == 'race' else PeerConnectMode.FALLBACK
+        settings.network.peer.obfuscate = c['prefer_obf']
         if c['server'] is not None:
             settings.network.server.reconnect.auto = True
             settings.network.server.reconnect.timeout = 10
@@ -437,16 +483,18 @@ def _execute(case):
                 world.peers['u%d' % u] = peers[u]
 
         def configure_peer(spec):
-            """Listener behaviour / advertised ports of the target user for an outgoing attempt."""
+            """Listener behaviour (per port) / advertised ports of the target user for an outgoing attempt.
+            -> (clear port, obfuscated port) as advertised (0 = not advertised, may be out of range)"""
             p = peers[spec['user']]
-            outcome = spec['direct'].split('-')[0]
             for port, is_obf in ((p.port, False), (p.obf_port, True)):
+                mode = spec['direct'] if is_obf == spec['obf'] else spec['direct_alt']
                 lst = net.remote_listeners[(p.ip, port)]
-                lst.outcome = outcome
+                lst.outcome = mode.split('-')[0]
                 lst.delay = spec['direct_delay'] / 1000.0
 
-                def accept(ep, is_obf=is_obf, mode=spec['direct'], p=p):
+                def accept(ep, is_obf=is_obf, mode=mode, p=p):
                     link = p._accepted(ep, is_obf)
+                    link.via_obf = is_obf
                     tr = ep.link.sides[0]
                     if mode == 'accept-failwrite':
                         tr.fail_writes = OSError('sim: write failed')
@@ -456,16 +504,33 @@ def _execute(case):
                 lst.accept = accept
             p.indirect = spec['indirect']
             p.indirect_delay = spec['indirect_delay'] / 1000.0
-            # advertise exactly one port so that the obfuscation of the attempt is decided by the case
+            # adv == 'one': exactly the port selected by 'obf' is advertised (the case decides the obfuscation);
+            # adv == 'both': both are advertised and settings.network.peer.obfuscate decides
+            both = spec['adv'] == 'both'
+            clear = p.port if (both or not spec['obf']) else 0
+            obf = p.obf_port if (both or spec['obf']) else 0
+            bad = OOB_PORTS[spec['oob_port']]
+            primary_is_obf = spec['obf']
+            if spec['oob'] in ('primary', 'both'):
+                clear, obf = (clear, bad if obf else 0) if primary_is_obf else (bad if clear else 0, obf)
+            if spec['oob'] in ('alt', 'both'):
+                clear, obf = (bad if clear else 0, obf) if primary_is_obf else (clear, bad if obf else 0)
+            if spec['dir'] == 'out' and obf > 65535:
+                # GetPeerAddress.Response carries the obfuscated port as uint16 (ConnectToPeer.Response: uint32)
+                obf = p.obf_port
             users = world.server.users['u%d' % spec['user']]
-            users['port'] = 0 if spec['obf'] else p.port
-            users['obf_port'] = p.obf_port if spec['obf'] else 0
+            users['port'] = clear
+            users['obf_port'] = obf
+            if clear > 65535 or obf > 65535:
+                notes['oob'] = True
+            return clear, obf
 
         def fix_link(spec):
             def on_link(link):
                 if link.typ is None:
                     link.typ = spec['typ']
-                    link.obfuscated = bool(spec['obf'] and spec['typ'] == 'P' and link.incoming_to_peer)
+                    link.obfuscated = bool(getattr(link, 'via_obf', spec['obf']) and spec['typ'] == 'P' and
+                                           link.incoming_to_peer)
             return on_link
 
         def link_of(conn):
@@ -732,20 +797,21 @@ def _execute(case):
                 if conn is None:
                     return
             else:   # ctp: the server relays a ConnectToPeer of the user; the library connects and pierces
-                configure_peer(spec)
+                adv_clear, adv_obf = configure_peer(spec)
                 pred = (lambda cn, name=name: cn.username == name and not cn.incoming)
                 arm_fault(i, make_fire(i, spec, pred, {}))
                 known = set(id(cn) for cn in network.peer_connections) | set(recs)
                 try:
                     world.server.send(M.ConnectToPeer.Response(
-                        username=name, typ=spec['typ'], ip=p.ip, port=0 if spec['obf'] else p.port, ticket=4000 + i,
-                        privileged=False, obfuscated_port_amount=1 if spec['obf'] else 0,
-                        obfuscated_port=p.obf_port if spec['obf'] else 0))
+                        username=name, typ=spec['typ'], ip=p.ip, port=adv_clear, ticket=4000 + i,
+                        privileged=False, obfuscated_port_amount=1 if adv_obf else 0,
+                        obfuscated_port=adv_obf))
                 except Exception:
                     notes['outcomes'][i] = 'server-gone'
                     return
                 # direct connect timeout is 10 s, the write timeout another 10 s
-                horizon = 0.05 if spec['direct'] in ('accept', 'refuse', 'reset', 'accept-failwrite') else 21.0
+                used = [spec['direct']] + ([spec['direct_alt']] if spec['adv'] == 'both' else [])
+                horizon = 0.05 if all(m in ('accept', 'refuse', 'reset', 'accept-failwrite') for m in used) else 21.0
                 await asyncio.sleep(horizon)
                 notes['attempt_iters'][i] = it['n'] - n_start
                 for r in order:
@@ -936,7 +1002,8 @@ def _execute(case):
                 explained.add(k)
                 once(k, 'C10/registry-residue:cancelled-connect',
                             f'{where}: {desc(r)} was reported {sq} and nothing else, it is still in '
-                            f'network.peer_connections although no task is executing its connect() any more; '
+                            f'network.peer_connections although no task is executing its connect() any more (attempt cancelled, or '
+                            f'ended by an exception that connect() did not turn into a failed connect); '
                             f'{stays(k)} ({ctx_txt})')
             elif last == 'UNINITIALIZED':
                 once(k, 'C10/registry-residue:uninitialized', f'{where}: {desc(r)} ({ctx_txt})')
@@ -1008,6 +1075,10 @@ def _execute(case):
             res.label('init:' + spec['init'])
         else:
             res.label('path:%s/%s' % (spec['direct'], spec['indirect']))
+            if spec['adv'] == 'both' and spec['api'] != 'create_addr':
+                res.label('advertised:both' + (':outcomes-differ' if spec['direct'] != spec['direct_alt'] else ''))
+            if spec['oob'] != 'none' and spec['api'] != 'create_addr' and notes.get('oob'):
+                res.label('port-out-of-range:' + spec['oob'])
         if notes['outcomes'].get(i) in ('connected', 'ctp-established', 'accepted:ok'):
             res.label('ending:' + spec['ending'])
     reasons = sorted({s[1] for r in order if isinstance(r.obj, PeerConnection) for s in r.states if s[0] == 'CLOSED'})
